@@ -313,6 +313,10 @@ type Layout struct {
 	// scalar at the end of the document owns the final line breaks); RenderYAML ignores it.
 	YAMLTail string `json:"yaml_tail,omitempty"`
 	HCLTail  string `json:"hcl_tail,omitempty"`
+	// YAMLNoScenariosKey leaves the `scenarios` key out of the YAML rendering of a description WITHOUT scenarios
+	// (the twin of an HCL file without a `scenario` block); without it such a description is written
+	// `scenarios: []`. It has no effect on a description with scenarios.
+	YAMLNoScenariosKey bool `json:"yaml_no_scenarios_key,omitempty"`
 }
 
 // Model is one scenario description.
